@@ -379,6 +379,9 @@ def fam_split(thorough=False):
             ob = F.orderbook(T, 'n1', orders, fullexec=full, fden=2)
             sl = slack(T, 'n1', pr2, lo=-2, hi=2, ec=1)
             out.append(F.make_cfg(ids(), T, [ob, sl] if first else [sl, ob], split=sp, refines=True, interval=iv, coupling='none'))
+        # ... and one whose last order is too large for the companion to absorb in full: with full execution it stays at 0, the relaxation takes half
+        ob = F.orderbook(T, 'n1', orders[:2] + [(size, size + 1, 4, 1)], fullexec=True, fden=2)
+        out.append(F.make_cfg(ids(), T, [slack(T, 'n1', pr2, lo=-2, hi=2, ec=1), ob], split=sp, refines=True, interval=iv, coupling='none'))
         # storages with start level = end level
         for st, pr in itertools.product([dict(size=2, cin=1, cout=1), dict(size=2, cin=2, cout=1, start=1, end=1, eff=(1, 2)),
                                          dict(size=2, cin=1, cout=1, inflow=1, start=1, end=1, cout_=0)], (pr1, pr2)):
